@@ -13,6 +13,9 @@ type GenOpts struct {
 	AutoInstr bool
 	// NoIndexEnd: allow (and force) Slice functions without index together with SliceEnd.
 	NoIndexEnd bool
+	// PredHeavy: every other task gets a predicate with inputs (the first program of a package:
+	// whatever the tool numbers per package and per flow starts from the same small numbers there).
+	PredHeavy bool
 }
 
 func pickDistinct(rng *rand.Rand, from []int, n int) []int {
@@ -165,7 +168,7 @@ func GenFlow(rng *rand.Rand, o GenOpts) *FlowP {
 			}
 			if tree && rng.Intn(3) != 0 {
 				// mostly predicate-free
-			} else if rng.Intn(4) == 0 && len(predAvail) > 0 {
+			} else if (rng.Intn(4) == 0 || (o.PredHeavy && rng.Intn(2) == 0)) && len(predAvail) > 0 {
 				p := &PredP{Ctx: rng.Intn(2) == 0}
 				p.In = pickDistinct(rng, predAvail, rng.Intn(3))
 				for _, a := range p.In {
